@@ -98,6 +98,10 @@ ORACLES = {
     "ripemd160": lambda a: _ripemd160(a[0]),
     # cipher.PubKeyRipemd160: ripemd160(sha256(sha256(pubkey)))
     "pubkey_hash": lambda a: _ripemd160(hashlib.sha256(hashlib.sha256(a[0]).digest()).digest()),
+    # bip32 identifier: ripemd160(sha256(x))
+    "hash160": lambda a: _ripemd160(hashlib.sha256(a[0]).digest()),
+    # Unicode NFKD of a UTF-8 string (bytes that are not valid UTF-8 pass through unchanged)
+    "nfkd": lambda a: unicodedata.normalize("NFKD", a[0].decode("utf-8", "surrogateescape")).encode("utf-8", "surrogateescape"),
     "hmac_sha512": lambda a: hmac.new(a[0], a[1], hashlib.sha512).digest(),
     # BIP39 seed: PBKDF2-HMAC-SHA512(password = NFKD(mnemonic), salt = "mnemonic" + NFKD(passphrase), 2048, 64);
     # the model passes the raw UTF-8 strings, normalisation is part of the standard and done here
